@@ -53,6 +53,8 @@ struct Schedule {
   last_full: bool,
   frees_at_last_collection: u64,
   last_collection_index: u64,
+  /// 2 while the first collection of a double collection is pending, 1 while the second is
+  double_pending: u8,
   native: bool,
 }
 
@@ -92,7 +94,14 @@ fn mode_decision(schedule: &mut Schedule) -> GcDecision {
   }
 }
 
-fn decide(index: u64, _bytes: usize) -> GcDecision {
+fn decide(index: u64, bytes: usize) -> GcDecision {
+  let decision = decide_inner(index, bytes);
+  let pending = if decision == GcDecision::FullTwice { 2 } else { 0 };
+  SCHEDULE.with(|schedule| schedule.borrow_mut().double_pending = pending);
+  decision
+}
+
+fn decide_inner(index: u64, _bytes: usize) -> GcDecision {
   SCHEDULE.with(|schedule| {
     let schedule = &mut *schedule.borrow_mut();
     match schedule.kind.as_str() {
@@ -162,20 +171,20 @@ fn collected(full: bool) {
       schedule.fired.push((index, if full { 2 } else { 1 }));
     }
 
-    // a second full collection right after a full collection must not free anything
-    if schedule.acct
-      && full
-      && schedule.last_full
-      && schedule.fired_total > 1
-      && schedule.last_collection_index == index
-      && frees != schedule.frees_at_last_collection
-    {
-      let message = format!(
-        "full collection directly after a full collection at allocation {} freed {} blocks",
-        index,
-        frees - schedule.frees_at_last_collection
-      );
-      schedule.acct_violations.push(message);
+    // the second collection of a double collection runs back to back with the first, nothing can have
+    // become garbage in between, so it must not free anything
+    if schedule.double_pending == 2 {
+      schedule.double_pending = 1;
+    } else if schedule.double_pending == 1 {
+      schedule.double_pending = 0;
+      if schedule.acct && frees != schedule.frees_at_last_collection {
+        let message = format!(
+          "full collection directly after a full collection at allocation {} freed {} blocks",
+          index,
+          frees - schedule.frees_at_last_collection
+        );
+        schedule.acct_violations.push(message);
+      }
     }
     schedule.last_full = full;
     schedule.frees_at_last_collection = frees;
